@@ -1,8 +1,7 @@
 package main
 
-// The hypotheses of the C04 theorems (Props_C04.v: WF, consistent, repoint_ordered), re-stated on the
-// harness scenario, so that the evidence shows on how many generated cases the theorems apply and that
-// C04_safe_exact's right-hand side predicts the verdict the oracle computes from the Go plan.
+// The hypotheses of the C04 theorems (Props_C04.v: WF, consistent), re-stated on the harness scenario,
+// so that the evidence shows on how many generated cases the theorems apply.
 
 func (c chg) allFKs() []fkey {
 	if c.kind != 'M' {
@@ -133,30 +132,6 @@ func scenarioConsistent(sc *scenario) bool {
 		}
 		if !covered {
 			return false
-		}
-	}
-	return true
-}
-
-// scenarioOrdered: every re-pointed key whose new parent is created stands after that AddTable.
-func scenarioOrdered(sc *scenario) bool {
-	addedAll := map[int]bool{}
-	for _, c := range sc.cs {
-		if c.kind == 'A' {
-			addedAll[c.t.name] = true
-		}
-	}
-	before := map[int]bool{}
-	for _, c := range sc.cs {
-		if c.kind == 'M' {
-			for _, tc := range c.tcs {
-				if tc.kind == '~' && addedAll[tc.g.ref.name] && !before[tc.g.ref.name] {
-					return false
-				}
-			}
-		}
-		if c.kind == 'A' {
-			before[c.t.name] = true
 		}
 	}
 	return true
